@@ -9,7 +9,7 @@ from .. import refmodel as R
 
 PID = "C13"
 ANCHORS = ["utils.py:bootstrap_ci"]
-DECIDING = {"M-bci": 20000, "R-bci": 8000}
+DECIDING = {"M-bci": 23712, "R-bci": 10056}
 THOROUGH_EXTRA = ["W2", "W3"]
 RULE = (
     "Every utils.bootstrap_ci call (also through the names bound in showbias and experimental.roc_ci) is observed by M-bci and compared "
